@@ -69,7 +69,7 @@ Record variant := {
   recheck_on_skip : bool;    (* false (as shipped): a re-nominated job that ends up collapsed/cached wakes nobody *)
   ctx_strict : bool;         (* false (as shipped): a context-free call may reuse a record made under a context *)
   pending_owner_safe : bool  (* false (as shipped): submitting overwrites _pending_jobs[key] and _finalize_job pops it
-                                whoever owns the entry; true: register only if absent, pop only one's own entry *)
+                                whoever owns the entry; true: jobs that opted out of CSE do not register, pop only one's own entry *)
 }.
 Definition as_shipped : variant :=
   {| release_if_holds := false; recheck_on_skip := false; ctx_strict := false; pending_owner_safe := false |}.
@@ -315,7 +315,8 @@ Definition exec_job (c : config) (s : state) (j : nat) (co : cache_outcome) : st
                   let s2 := setj s1 j (mark_submitted (mark_holds x PSubmitted)) in
                   add_submit (set_pending s2
                     (if pending_owner_safe (vr c)
-                     then match lookup_pending s2 k with Some _ => pending s2 | None => (k, j) :: pending s2 end
+                     then (if jnocse x then pending s2
+                           else (k, j) :: filter (fun p => negb (key_eqb (fst p) k)) (pending s2))
                      else (k, j) :: filter (fun p => negb (key_eqb (fst p) k)) (pending s2))) j
           end
       end
